@@ -40,16 +40,30 @@ def spec_is_timeout(ck):
     stats, rb, rf, lr = _stats(ex, st)
     T = z3.BitVec('idle_timeout_secs', 64)
     ex.assume(st, z3.ULT(T, BV(1 << 40, 64)))
-    ex.assume(st, z3.ULE(lr, now))      # the clock does not run backwards
+    # the clock is the wall clock (SystemTime): it may be set back between two readings, so the recorded stamp may lie in the
+    # future of `now`.  A direction whose last activity is later than now has carried data more recently than any period.
+    ex.assume(st, z3.ULT(lr, BV(1 << 62, 64)))
     ex.inputs = {'idle_timeout_secs': T, 'now_ms': now, 'last_read_ms': lr}
     finals = ex.call_fn(st, fn, [Ref(st.alloc(stats), ()), CA.mk_duration(T)])
     for s in finals:
         if s.status != 'returned':
             continue
-        exp = z3.And(T != BV(0, 64), z3.UGT(now - lr, T * BV(1000, 64)))
+        exp = z3.And(T != BV(0, 64), z3.UGE(now, lr), z3.UGT(now - lr, T * BV(1000, 64)))
         ex.prove(s, 'C13/is_timeout/idle-iff-silent-longer-than-the-period-and-period-nonzero', s.ret.t == exp)
+    for f in ex.findings:
+        if not hasattr(f, 'target'):
+            f.target = 'ContextStatistics::is_timeout'
+
+    def plan(ob):
+        if (ob.target or '') != 'ContextStatistics::is_timeout' or ob.finding is None:
+            return None
+        i = ob.finding.inputs or {}
+        if i.get('last_read_ms', 0) > i.get('now_ms', 0):
+            return 'context', [{'driver': 'clock_stepped_back', 'args': {'step_ms': st_, 'period_s': 1}} for st_ in (5000, 1)], lambda o: o.get('looks_idle') is True or o.get('panicked') is True
+        return None
+    ck.plans.append(plan)
     ck.absorb(ex, 'ContextStatistics::is_timeout', finals)
-    ck.bounds['ContextStatistics::is_timeout'] = 'any period < 2^40 s, any last-activity / current time in ms (< 2^62), clock monotone'
+    ck.bounds['ContextStatistics::is_timeout'] = 'any period < 2^40 s, any last-activity / current time in ms (< 2^62), in either order (a wall clock can be set back)'
 
 
 def spec_incr(ck, method):
